@@ -424,6 +424,77 @@ theorem mindex_eq_zero_iff (θ : ℝ) (T O : List ℝ) (hlen : T.length = O.leng
         have := (ih ts rfl).mpr rfl
         simp [this]
 
+/-- every entry computed by `misorientation_angles` lies in `[0°, 180°]` -/
+theorem pairAngle_range (p q : Quat) : 0 ≤ pairAngle p q ∧ pairAngle p q ≤ 180 := by
+  unfold pairAngle rad2deg Racos Rabs Rpi
+  have h0 := Real.arccos_nonneg |clip1 (dot4 p q)|
+  have h1 : Real.arccos |clip1 (dot4 p q)| ≤ π / 2 :=
+    (Real.arccos_le_pi_div_two).mpr (abs_nonneg _)
+  have hp := pi_pos
+  constructor
+  · positivity
+  · have : Real.arccos |clip1 (dot4 p q)| * (180 / π) ≤ π / 2 * (180 / π) :=
+      mul_le_mul_of_nonneg_right h1 (by positivity)
+    have e : π / 2 * (180 / π) = 90 := by field_simp; ring
+    linarith
+
+/-- if every value lies in `[0, n]`, the bin counts add up to the number of values: nothing is
+dropped by the histogram range -/
+theorem histCounts_total (n : ℕ) (hn : 0 < n) (xs : List ℝ) (h : ∀ x ∈ xs, 0 ≤ x ∧ x ≤ n) :
+    natSum (histCounts n xs) = xs.length := by
+  rw [natSum_eq]
+  unfold histCounts
+  induction xs with
+  | nil => simp
+  | cons x xs ih =>
+    have hx := h x (by simp)
+    obtain ⟨k, hk, hkk⟩ := inBin_unique n hn x hx.1 hx.2
+    have ih' := ih (fun y hy => h y (by simp [hy]))
+    have split : ((List.range n).map fun b => (x :: xs).countP (inBin n b)).sum
+        = ((List.range n).map fun b => xs.countP (inBin n b)).sum
+          + (List.range n).countP (fun b => inBin n b x) := by
+      have e1 : ∀ b, (x :: xs).countP (inBin n b)
+          = xs.countP (inBin n b) + (if inBin n b x = true then 1 else 0) :=
+        fun b => List.countP_cons
+      simp only [e1]
+      rw [← sum_map_indicator]
+      generalize List.range n = l
+      induction l with
+      | nil => simp
+      | cons b bs ihb => simp only [List.map_cons, List.sum_cons, ihb]; omega
+    rw [split, ih', countP_range_eq_one n _ k hk hkk]
+    simp
+/-- numpy's `density=True`: non-negative values whose sum times the bin width (1) is 1 -/
+theorem histDensity_spec (n : ℕ) (xs : List ℝ) (htot : 0 < natSum (histCounts n xs)) :
+    (∀ o ∈ histDensity n xs, 0 ≤ o) ∧ (histDensity n xs).sum = 1 ∧ (histDensity n xs).length = n := by
+  have hT : (0 : ℝ) < (natSum (histCounts n xs) : ℝ) := by exact_mod_cast htot
+  refine ⟨?_, ?_, ?_⟩
+  · intro o ho
+    simp only [histDensity, RofNat, List.mem_map] at ho
+    obtain ⟨k, _, rfl⟩ := ho
+    positivity
+  · simp only [histDensity, RofNat, div_one]
+    have : ∀ l : List ℕ, ∀ t : ℝ, (List.map (fun (k : ℕ) => ((k : ℝ) / t)) l).sum = ((l.sum : ℕ) : ℝ) / t := by
+      intro l t
+      induction l with
+      | nil => simp
+      | cons x xs ih => simp only [List.map_cons, List.sum_cons, ih, Nat.cast_add, add_div]
+    rw [this, ← natSum_eq]
+    exact div_self hT.ne'
+  · simp [histDensity, histCounts]
+
+/-- **the index of the model's own histogram is in range** whenever at least one pair angle falls
+in `[0, θmax]`: for any non-negative theoretical bin values with `Σ T = 1 + δ` -/
+theorem mindex_range_hist (n : ℕ) (hn : 0 < n) (xs : List ℝ) (htot : 0 < natSum (histCounts n xs))
+    (T : List ℝ) (hT : ∀ t ∈ T, 0 ≤ t) (δ : ℝ) (hTs : T.sum = 1 + δ) :
+    0 ≤ mIndexSum n T (histDensity n xs) ∧ mIndexSum n T (histDensity n xs) ≤ 1 + δ / 2 := by
+  obtain ⟨h1, h2, h3⟩ := histDensity_spec n xs htot
+  have hnr : (0 : ℝ) < n := by exact_mod_cast hn
+  apply mindex_range (n : ℝ) T (histDensity n xs) (by rw [h3]; exact hn) hnr hT h1 δ
+  · rw [h3, h2, div_self hnr.ne']; ring
+  · rw [h3, hTs, div_self hnr.ne']; ring
+
+
 /-! ## grain reordering -/
 
 /-- **mindex_perm**: the multiset of pair values over `itertools.combinations(grains, 2)` does not
@@ -479,6 +550,65 @@ theorem mindex_counts_perm (sys : Lattice) (n : ℕ) (l l' : List Quat) (h : l.P
     histCounts n (ModelD.MIndex.pairValues (misorientationCoded sys) l)
       = histCounts n (ModelD.MIndex.pairValues (misorientationCoded sys) l') :=
   hist_perm n _ _ (mindex_perm _ (fun a b => misorientation_symm _ _ a b) l l' h)
+
+
+/-- the reduced angle of two grains lies in `[0°, 180°]` for every non-empty operator list -/
+theorem misorientation_in_range (act : SymOp → Quat → Quat) (ops : List SymOp) (hne : ops ≠ [])
+    (q1 q2 : Quat) :
+    0 ≤ misorientationAngle act ops q1 q2 ∧ misorientationAngle act ops q1 q2 ≤ 180 := by
+  unfold misorientationAngle minPairAngle
+  obtain ⟨s, hs⟩ := List.exists_mem_of_ne_nil ops hne
+  have hmem : pairAngle (act s q1).memo (act s q2).memo ∈
+      (ops.map fun s => (act s q1).memo).flatMap fun p =>
+        (ops.map fun s => (act s q2).memo).map fun q => pairAngle p q := by
+    rw [mem_pairAngles]
+    exact ⟨_, List.mem_map.mpr ⟨s, hs, rfl⟩, _, List.mem_map.mpr ⟨s, hs, rfl⟩, rfl⟩
+  have hne' := List.ne_nil_of_mem hmem
+  have := listMin_mem hne'
+  rw [mem_pairAngles] at this
+  obtain ⟨p, _, q, _, hpq⟩ := this
+  rw [← hpq]
+  exact pairAngle_range p q
+
+/-- **triclinic: nothing is dropped by the histogram** (`θmax = 180`): the bin counts add up to the
+number of grain pairs, so for at least two grains the density is well defined and, by
+`mindex_range_hist`, the index of the model lies in `[0, 1 + δ/2]`. (For the other systems the
+coded operators produce angles above `θmax`, which numpy drops — with two grains the histogram can
+be empty and the index NaN: known findings `range:*`.) -/
+theorem triclinic_hist_total (l : List Quat) :
+    natSum (histCounts 180 (ModelD.MIndex.pairValues (misorientationCoded .triclinic) l))
+      = (ModelD.MIndex.pairs l).length := by
+  rw [histCounts_total 180 (by norm_num)]
+  · simp [ModelD.MIndex.pairValues]
+  · intro x hx
+    simp only [ModelD.MIndex.pairValues, List.mem_map] at hx
+    obtain ⟨pr, _, rfl⟩ := hx
+    have := misorientation_in_range applyOp (symmetryOperations .triclinic)
+      (by simp [symmetryOperations]) pr.1 pr.2
+    simpa [misorientationCoded] using this
+
+theorem pairs_length {α : Type} (l : List α) :
+    (ModelD.MIndex.pairs l).length = l.length * (l.length - 1) / 2 := by
+  induction l with
+  | nil => simp [ModelD.MIndex.pairs]
+  | cons x xs ih =>
+    simp only [ModelD.MIndex.pairs, List.length_append, List.length_map, ih, List.length_cons,
+      Nat.add_sub_cancel]
+    have h : xs.length * (xs.length - 1) % 2 = 0 := by
+      rcases Nat.even_or_odd xs.length with ⟨k, hk⟩ | ⟨k, hk⟩
+      · rw [hk]; rcases k with _ | k
+        · simp
+        · have : (k + 1 + (k + 1)) * (k + 1 + (k + 1) - 1) = 2 * ((k + 1) * (k + 1 + (k + 1) - 1)) := by ring
+          rw [this]; simp
+      · rw [hk]; have : (2 * k + 1) * (2 * k + 1 - 1) = 2 * ((2 * k + 1) * k) := by
+          simp only [Nat.add_sub_cancel]; ring
+        rw [this]; simp
+    rcases Nat.eq_zero_or_pos xs.length with h0 | h0
+    · simp [h0]
+    · have e : (xs.length + 1) * xs.length = xs.length * (xs.length - 1) + 2 * xs.length := by
+        obtain ⟨m, hm⟩ : ∃ m, xs.length = m + 1 := ⟨xs.length - 1, by omega⟩
+        rw [hm]; simp only [Nat.add_sub_cancel]; ring
+      rw [e]; omega
 
 /-! ## the batched variant -/
 
